@@ -15,10 +15,10 @@ CONSTANTS
   PropTol = 2
   RandNDropsRemainder = FALSE
   ShutDownSavesUnderCaller = FALSE
-  Balances = {0, 3, 5}
+  Balances = {0, 5}
   MinStakes = {0}
   MaxN = 0
-  MaxSteps = 2
+  MaxSteps = 3
   Amounts = {1}
   Funds = 0
 INVARIANTS C10_Distribute C23_DeadNotRewarded C23_DeadImpliesPoolDead
